@@ -134,10 +134,13 @@ def drive(tier):
         arrive.append((bytes(r.choice([1, 7, 40])), kfun, r.choice(tweaks), 0))
     for kfun in (0, 1, 7, 50, 51, 1000, 2 ** 32 - 1):
         arrive.append((b"", kfun, r.choice(tweaks), 1))
+    for one in (b"\xfe", b"\x7f", b"\xef", b"\xff\xfe", b"\xfe\xff"):        # nearly full filters are not full
+        arrive.append((one, 1, 0, 0))
+        arrive.append((one, 3, 5, 0))
     arrive.append((b"\xff", 3, 5, 0))
     arrive.append((b"\xff\xff", 3, 5, 0))
     for i, (data, kfun, tweak, flags) in enumerate(arrive):
-        if tier == "quick" and i % 2 and len(data) > 8:
+        if tier == "quick" and i % 2 and len(data) > 8 and kfun <= 50:
             continue
         raw = (bytes([len(data)]) if len(data) < 253 else b"\xfd" + struct.pack("<H", len(data))) + data + struct.pack("<IIB", kfun, tweak, flags)
         tid = R.new_tid()
